@@ -26,7 +26,7 @@ Let s := run_script s0 ops.
 
 Lemma set_tier v : s_tier (run_script s0 (ops ++ [SSetTier v])) = v mod 4096.
 Proof. rewrite run_app. reflexivity. Qed.
-Lemma set_adjust_pts v : s_pts (run_script s0 (ops ++ [SSetAdjustPTS v])) = v.
+Lemma set_adjust_pts v : s_pts (run_script s0 (ops ++ [SSetAdjustPTS v])) = v mod 8589934592.
 Proof. rewrite run_app. reflexivity. Qed.
 Lemma set_pts v :
   let s' := run_script s0 (ops ++ [SSetPTS v]) in
@@ -78,7 +78,7 @@ Lemma ins_setters i :
   (forall b, i_has_pts (apply_ins_op (KSetHasPTS b) i) = b) /\
   (forall v, i_pts (apply_ins_op (KSetPTS v) i) = v mod 8589934592) /\
   (forall b, i_has_duration (apply_ins_op (ISetHasDuration b) i) = b) /\
-  (forall v, i_duration (apply_ins_op (ISetDuration v) i) = v) /\
+  (forall v, i_duration (apply_ins_op (ISetDuration v) i) = v mod 8589934592) /\
   (forall b, i_auto_return (apply_ins_op (ISetIsAutoReturn b) i) = b) /\
   (forall v, i_unique_program_id (apply_ins_op (ISetUniqueProgramId v) i) = v) /\
   (forall v, i_avail_num (apply_ins_op (ISetAvailNum v) i) = v) /\
@@ -90,7 +90,7 @@ Proof. destruct i. repeat split; reflexivity. Qed.
 (* a flag can be cleared as well as set, and clearing does not disturb the value kept beside it *)
 Lemma ins_flag_clear i b v :
   i_has_duration (apply_ins_op (ISetHasDuration b) (apply_ins_op (ISetDuration v) (apply_ins_op (ISetHasDuration (negb b)) i))) = b /\
-  i_duration (apply_ins_op (ISetHasDuration b) (apply_ins_op (ISetDuration v) i)) = v.
+  i_duration (apply_ins_op (ISetHasDuration b) (apply_ins_op (ISetDuration v) i)) = v mod 8589934592.
 Proof. destruct i. split; reflexivity. Qed.
 
 (* ---- segmentation descriptor setters ---- *)
@@ -110,9 +110,9 @@ Lemma desc_setters d :
   (forall b, d_web (apply_desc_op (DSetIsWebDeliveryAllowed b) d) = b) /\
   (forall b, d_archive (apply_desc_op (DSetIsArchiveAllowed b) d) = b) /\
   (forall b, d_noblackout (apply_desc_op (DSetHasNoRegionalBlackout b) d) = b) /\
-  (forall v, d_device (apply_desc_op (DSetDeviceRestrictions v) d) = v) /\
+  (forall v, d_device (apply_desc_op (DSetDeviceRestrictions v) d) = v mod 4) /\
   (forall b, d_has_sub (apply_desc_op (DSetHasSubSegments b) d) = b) /\
-  (forall l, d_components (apply_desc_op (DSetComponents l) d) = map (fun e => mkco (fst e) (snd e)) l).
+  (forall l, d_components (apply_desc_op (DSetComponents l) d) = map (fun e => mkco (fst e) (snd e mod 8589934592)) l).
 Proof.
   destruct d. repeat split; try reflexivity.
   intros v. cbn [apply_desc_op]. destruct (v =? SegUPIDMID); [reflexivity|]. destruct (v =? 0); reflexivity.
